@@ -4,9 +4,9 @@
 
     Every loop is a function of the CHOICE VECTOR (the successive rand.Intn results); the
     bound of every rand.Intn call is given by the [*_bounds] functions.  The reservoir loop is
-    parameterised by the bound expression so that the expression written in the Go code
-    ([go_bound], rand.Intn(totaltrees) / rand.Intn(i)) and the textbook one ([std_bound],
-    rand.Intn(i+1)) are both instances. *)
+    parameterised by the bound expression so that the textbook expression now in the Go code
+    ([std_bound], rand.Intn(i+1)) and the one it replaced ([go_bound], rand.Intn(totaltrees) /
+    rand.Intn(i), biased) are both instances. *)
 From Coq Require Import String ZArith QArith Bool Arith List.
 From GT Require Import Base.UTree Model.Reroot Model.Rand.
 Import ListNotations.
@@ -19,7 +19,7 @@ Local Close Scope Q_scope.
         if totaltrees < numtrees {                          if i < n {
           outtrees[totaltrees] = t.Tree                       sampled[i] = tip.Name()
         } else {                                            } else {
-          j := rand.Intn(totaltrees)                          j := rand.Intn(i)
+          j := rand.Intn(totaltrees + 1)                      j := rand.Intn(i + 1)
           if j < numtrees { outtrees[j] = t.Tree }            if j < n { sampled[j] = tip.Name() }
         }                                                   }
         totaltrees++                                        total++
@@ -52,9 +52,10 @@ Definition reservoir {A} (bnd : nat -> nat) (k : nat) (xs : list A) (cs : list n
     numtrees = 0 with at least one input tree) *)
 Definition reservoir_bounds (bnd : nat -> nat) (k n : nat) : list nat := map bnd (seq k (n - k)).
 
-(** the index expression as it is written in cmd/sample.go and cmd/prune.go today (the per-seed
-    predictions of Judge/C20.v tie it to the binary); one line to change when the code is fixed *)
-Definition code_bound : nat -> nat := go_bound.
+(** the index expression as it is written in cmd/sample.go and cmd/prune.go (the per-seed
+    predictions of Judge/C20.v tie it to the binary): rand.Intn(totaltrees + 1) / rand.Intn(i + 1)
+    since the fixes 202a79d / 4c6febb; [go_bound] is the expression they replaced *)
+Definition code_bound : nat -> nat := std_bound.
 
 Definition sample_noreplace {A} := @reservoir A code_bound.
 Definition random_tips (k : nat) (t : utree) (cs : list nat) : option (list (option string)) :=
